@@ -69,3 +69,33 @@ pub fn w16_dense(n: usize) -> Vec<u32> {
     v.dedup();
     v
 }
+
+/// words whose low byte runs through all 256 values under a fixed high byte, and the reverse:
+/// 512 values that are NOT boundaries (carries between the bytes, equal / complementary bytes)
+pub fn w16_bytes() -> Vec<u32> {
+    let mut v: Vec<u32> = Vec::new();
+    for x in 0..256u32 {
+        v.push(0x1200 | x);
+        v.push((x << 8) | 0x34);
+    }
+    v.sort();
+    v.dedup();
+    v
+}
+
+/// operand pairs in a fixed RELATION, for every 16-bit x: equal, low byte complemented, complemented,
+/// successor, bytes swapped, negated, shifted left by one, x and x/2+0x4000
+pub fn w16_relations() -> Vec<(u32, u32)> {
+    let mut v = Vec::with_capacity(8 * 65536);
+    for x in 0..65536u32 {
+        v.push((x, x));
+        v.push((x, x ^ 0x00FF));
+        v.push((x, !x & 0xFFFF));
+        v.push((x, (x + 1) & 0xFFFF));
+        v.push((x, ((x << 8) | (x >> 8)) & 0xFFFF));
+        v.push((x, x.wrapping_neg() & 0xFFFF));
+        v.push((x, (x << 1) & 0xFFFF));
+        v.push((x, (x / 2 + 0x4000) & 0xFFFF));
+    }
+    v
+}
